@@ -79,6 +79,14 @@ Definition x_common_ft (o : popts) (s : st) : option str * st :=      (* -f (req
   end.
 
 Fixpoint pair_up (l : list str) : list (str * str) := match l with a :: b :: r => (a, b) :: pair_up r | _ => [] end.
+(* macroXset: the parameters it knows, and those whose value is rendered (escaped) at assignment *)
+Definition known_params : list string :=
+  ["dmark"; "document-author"; "document-date"; "document-title"; "epub-cover"; "epub-css"; "epub-metadata"; "epub-subject";
+   "epub-uuid"; "epub-version"; "epub-nav-landmarks"; "lang"; "latex-preamble"; "latex-variant"; "mom-preamble"; "nbsp";
+   "title-page"; "xhtml-bottom"; "xhtml-css"; "xhtml-index"; "xhtml-favicon"; "xhtml-go-up"; "xhtml-top"; "xhtml-version";
+   "xhtml-chap-prefix"; "xhtml-chap-custom-filenames"; "xhtml-custom-ids"]%string.
+Definition rendered_params : list string :=
+  ["document-author"; "document-date"; "document-title"; "epub-subject"; "epub-uuid"; "xhtml-index"; "xhtml-go-up"; "xhtml-top"]%string.
 Definition macro_x (s : st) : st :=
   if process s then s else
   match args s with
@@ -150,13 +158,8 @@ Definition macro_x (s : st) : st :=
       | p :: v :: more =>
         let s6 := match more with [] => s5 | _ => err "too many arguments" s5 end in
         let '(param, s7) := inlines_text p s6 in
-        let known := ["dmark"; "document-author"; "document-date"; "document-title"; "epub-cover"; "epub-css"; "epub-metadata"; "epub-subject";
-                      "epub-uuid"; "epub-version"; "epub-nav-landmarks"; "lang"; "latex-preamble"; "latex-variant"; "mom-preamble"; "nbsp";
-                      "title-page"; "xhtml-bottom"; "xhtml-css"; "xhtml-index"; "xhtml-favicon"; "xhtml-go-up"; "xhtml-top"; "xhtml-version";
-                      "xhtml-chap-prefix"; "xhtml-chap-custom-filenames"; "xhtml-custom-ids"]%string in
-        let s8 := if existsb (fun k => str_eqb param (runes k)) known then s7 else err "unknown parameter" s7 in
-        let rendered := ["document-author"; "document-date"; "document-title"; "epub-subject"; "epub-uuid"; "xhtml-index"; "xhtml-go-up"; "xhtml-top"]%string in
-        let '(value, s9) := if existsb (fun k => str_eqb param (runes k)) rendered then render_text v s8 else inlines_text v s8 in
+        let s8 := if existsb (fun k => str_eqb param (runes k)) known_params then s7 else err "unknown parameter" s7 in
+        let '(value, s9) := if existsb (fun k => str_eqb param (runes k)) rendered_params then render_text v s8 else inlines_text v s8 in
         let ok_s := check_param param value s9 in
         if fst ok_s then (snd ok_s) <| params ::= assoc_set param value |> else snd ok_s
       | _ => err "two arguments expected" s5
